@@ -58,6 +58,10 @@ var poison = []string{
 	"let zzB x y = (x y, y x)\n",
 	"let zzC s =\n  match s s with\n  | _ -> 1\n",
 	"let zzD x = [x; [x]]\n",
+	"let zzI x = [x; [x]; [[x]]]\n",
+	"let zzJ n = [n; n.next; n.next.next]\n",
+	"let zzK x = [x; (x, x); ((x, x), (x, x))]\n",
+	"let zzL x =\n  let a = [x]\n  let b = [a]\n  [x; a; b]\n",
 	"let zzE x = x (x, x)\n",
 	"let zzF f = f f 1\n",
 	"let rec zzG x = zzG x\n",
